@@ -239,43 +239,8 @@ func runC08(r *Run) {
 	}
 
 	// ---------- R6 ----------
-	nEnd := 0
-	for _, fn := range P.Funcs {
-		pk := fnPkgPath(fn)
-		if !strings.HasPrefix(pk, haqqMod+"/x/vesting") || isTestSupport(P, fn) || fn.Synthetic != "" || isGeneratedFile(P.FileOf(fnPos(outermost(fn)))) {
-			continue
-		}
-		eachInstr(fn, func(in ssa.Instruction) {
-			st, ok := in.(*ssa.Store)
-			if !ok {
-				return
-			}
-			sn, f, ok := fieldOfAddr(st.Addr)
-			if !ok || sn != "BaseVestingAccount" || f != "EndTime" {
-				return
-			}
-			nEnd++
-			s := backSlice(st.Val)
-			dep := func(word string) bool {
-				return s.Any(func(v ssa.Value) bool {
-					if _, f, ok := fieldOfAddr(v); ok && strings.Contains(f, word) {
-						return true
-					}
-					if p, ok := v.(*ssa.Parameter); ok && strings.Contains(strings.ToLower(p.Name()), strings.ToLower(word)) {
-						return true
-					}
-					if c, ok := v.(*ssa.Call); ok && strings.Contains(callInfo(c).Name, word) {
-						return true
-					}
-					return false
-				})
-			}
-			okBoth := dep("Lockup") && dep("Vesting")
-			r.Check(okBoth, "R6", fmt.Sprintf("%s#EndTime", fnID(fn)), P.Pos(instrPos(in)), "EndTime = f(lockup schedule, vesting schedule)",
-				"a vesting account's EndTime is set from only one of its two schedules: ReadSchedule returns the full amount from EndTime on, so the other schedule's remaining lock would silently end early")
-		})
-	}
-	r.Floor("R6", "EndTime stores in x/vesting", nEnd, 3)
+	checkEndTimeStores(r, "R6")
+
 	// ---------- R7 ----------
 	r.Rule("R7", "SHAPE.locked-definitions: the definitional one-liners LockedCoins is built from have their defining shape — GetUnlockedCoins = ReadSchedule(…, LockupPeriods, OriginalVesting, t); GetVestedCoins = ReadSchedule(…, VestingPeriods, OriginalVesting, t); GetUnlockedVestedCoins = Min(GetUnlockedCoins, GetVestedCoins); GetVestingCoins = OriginalVesting − GetVestedCoins; GetLockedUpCoins = OriginalVesting − GetUnlockedCoins; GetLockedUpVestedCoins = GetVestedCoins − GetUnlockedVestedCoins; LockedCoins = OriginalVesting − (GetUnlockedVestedCoins + Min(DelegatedFree + DelegatedVesting, GetLockedUpVestedCoins))")
 	const vaPfx = "(x/vesting/types.ClawbackVestingAccount)."
@@ -345,4 +310,47 @@ func runC08(r *Run) {
 		})
 		r.Check(found, "R7", vaPfx+sh.fn+"#definition", P.Pos(fnPos(fn)), sh.text, "ClawbackVestingAccount."+sh.fn+" no longer has its defining shape ("+sh.text+"): the locked amount the bank keeper enforces is computed from a different combination of the schedules")
 	}
+}
+
+// checkEndTimeStores (C08 R6, also evaluated as C09 R6): every store to a vesting account's EndTime depends
+// on both schedules.
+func checkEndTimeStores(r *Run, rule string) {
+	P := r.P
+	nEnd := 0
+	for _, fn := range P.Funcs {
+		pk := fnPkgPath(fn)
+		if !strings.HasPrefix(pk, haqqMod+"/x/vesting") || isTestSupport(P, fn) || fn.Synthetic != "" || isGeneratedFile(P.FileOf(fnPos(outermost(fn)))) {
+			continue
+		}
+		eachInstr(fn, func(in ssa.Instruction) {
+			st, ok := in.(*ssa.Store)
+			if !ok {
+				return
+			}
+			sn, f, ok := fieldOfAddr(st.Addr)
+			if !ok || sn != "BaseVestingAccount" || f != "EndTime" {
+				return
+			}
+			nEnd++
+			s := backSlice(st.Val)
+			dep := func(word string) bool {
+				return s.Any(func(v ssa.Value) bool {
+					if _, f, ok := fieldOfAddr(v); ok && strings.Contains(f, word) {
+						return true
+					}
+					if p, ok := v.(*ssa.Parameter); ok && strings.Contains(strings.ToLower(p.Name()), strings.ToLower(word)) {
+						return true
+					}
+					if c, ok := v.(*ssa.Call); ok && strings.Contains(callInfo(c).Name, word) {
+						return true
+					}
+					return false
+				})
+			}
+			okBoth := dep("Lockup") && dep("Vesting")
+			r.Check(okBoth, rule, fmt.Sprintf("%s#EndTime", fnID(fn)), P.Pos(instrPos(in)), "EndTime = f(lockup schedule, vesting schedule)",
+				"a vesting account's EndTime is set from only one of its two schedules: ReadSchedule returns the full amount from EndTime on, so the other schedule's remaining lock would silently end early")
+		})
+	}
+	r.Floor(rule, "EndTime stores in x/vesting", nEnd, 3)
 }
